@@ -25,8 +25,10 @@ C08  1. spec/MC_Types.tla (invariant Emit8) - TLC enumerates (pattern type T, va
      3. spec/TypesValTrace.tla               - TLC judges SAME / ACC / MEM.
 
 Python only moves data: it renders, runs, and routes mismatches to known-finding keys; it never
-computes a verdict.  Environment: TYPES_SAMPLE (number of sampled triples), TYPES_VCASES (cap on C08
-cases), TYPES_FLIP (self-test: see engines/types_selftest.py).
+computes a verdict.  Environment: TYPES_SAMPLE (number of sampled triples), TYPES_VMOD / TYPES_CMOD
+(residue-class sampling of the 3- / 4-node graphs), TYPES_VCASES (cap on C08 cases), TYPES_DUMP=1
+(write every routed mismatch to work/types/mismatches.json).  Self-test of the judges (answers of
+the real code corrupted after the replay): engines/types_selftest.py.
 """
 import collections
 import json
@@ -684,6 +686,16 @@ def c09_cases(check, tier):
         cases.append({"id": len(cases) + 1, "g": {"types": types, "tuples": tuples}, "roots": roots,
                       "judge": [[1, 2], [2, 1]], "narrow": [[1, 2, "inter", "compl"], [2, 1, "inter", "compl"]],
                       "src": "pinned:" + key})
+    # (d) LOGGED ONLY: send side of a process / receive component of a callable differ (no variance
+    # is specified for them, nothing is judged: judge = [])
+    ib = T_uni(INT, BIN)
+    for name, terms in (("process send differs", [("proc", INT, INT), ("proc", ib, INT)]),):
+        g, roots = terms_to_graph(terms)
+        cases.append({"id": len(cases) + 1, "g": g, "roots": roots, "judge": [], "narrow": [], "src": "logged:" + name})
+    g = {"types": [{"k": "uni", "ms": []}, {"k": "int"}, {"k": "bin"}, {"k": "uni", "ms": [2, 3]},
+                   {"k": "fn", "p": 2, "r": 2, "rc": 2}, {"k": "fn", "p": 2, "r": 2, "rc": 4}], "tuples": []}
+    cases.append({"id": len(cases) + 1, "g": g, "roots": [5, 6], "judge": [], "narrow": [],
+                  "src": "logged:callable receive differs"})
     return cases, verdicts
 
 
@@ -729,29 +741,6 @@ def judge_c09(check, records, name="TypesTrace", stat=False):
     return mism, stats
 
 
-def flip_for_selftest(records):
-    """TYPES_FLIP=sound|over|inter|trans: corrupt the code's answers (never used by /verif/check)."""
-    mode = os.environ.get("TYPES_FLIP")
-    if not mode:
-        return
-    for r in records:
-        n = len(r["roots"])
-        for i in range(n):
-            for j in range(n):
-                if i == j:
-                    continue
-                if mode == "sound" and not r["compat"][i][j]:
-                    r["compat"][i][j] = True
-                if mode == "over" and r["overlap"][i][j]:
-                    r["overlap"][i][j] = False
-        if mode == "inter":
-            for x in r["narrow"]:
-                if x["inter"]:
-                    # claim the intersection is the never type (node of an empty union)
-                    x["g"]["types"].append({"k": "uni", "ms": []})
-                    x["inter"] = [len(x["g"]["types"])]
-
-
 def e2e_confirm(check, key):
     """Run the pinned program of a finding through the real compiler + runtime."""
     prog, correct = E2E[key]
@@ -776,7 +765,6 @@ def run_c09(prop, tier):
     t0 = time.time()
     cases, verdicts = c09_cases(check, tier)
     records, crashed = replay_cases(cases)
-    flip_for_selftest(records)
     check.cov["traces_validated_against_impl"] = len(records)
     check.cov["t_generate_replay_s"] = round(time.time() - t0, 1)
     by_id = {c["id"]: c for c in cases}
@@ -826,6 +814,9 @@ def run_c09(prop, tier):
                           "spec": [{k: x[k] for k in ("a", "b", "contained", "overlap")}
                                    for x in verdicts.get(c["id"], {}).values()]})
 
+    check.cov["unspecified_variance_logged_only"] = [
+        {"what": c["src"][7:], "types": c["answer"]["fmt"], "is_compatible": c["answer"]["compat"],
+         "types_overlap": c["answer"]["overlap"]} for c in cases if c["src"].startswith("logged:") and "answer" in c]
     # crashes of the relation itself (stack overflow): data, routed like any other disagreement
     by_key = collections.defaultdict(list)
     for c, msg in crashed:
@@ -1004,7 +995,7 @@ def verdict_of(outcome):
 def c08_vcases(check, tier):
     """TLC enumerates every graph with <= 2 nodes (all of them emit cases) and the graphs with 3
     nodes; in the quick tier only a seeded residue class of the 3-node graphs emits cases."""
-    mod = int(os.environ.get("TYPES_VMOD", "61" if tier == "quick" else "1"))
+    mod = int(os.environ.get("TYPES_VMOD", "61" if tier == "quick" else "7"))
     cfg = write_cfg("MC_Types8_enum.cfg", "Emit8", 3, mod=mod, rem=common.seed() % mod)
     res = common.tlc("MC_Types", cfg, workers=8, timeout=6000)
     if not res.ok:
@@ -1091,9 +1082,6 @@ def run_c08(prop, tier):
             shrink[1] += sz["ntypes"][1]
         runs += 4
         r.setdefault("progs", {})[form] = direct
-    if os.environ.get("TYPES_FLIP") == "acc":
-        for r in list(recs.values())[::5]:
-            r["runs"][0]["acc"] = "rej" if r["runs"][0]["acc"] == "acc" else "acc"
     check.cov["traces_validated_against_impl"] = runs
     check.cov["evaluations"] = len(progs)
     check.cov["type_table_entries_full_vs_shaken"] = shrink
@@ -1175,7 +1163,7 @@ def replay(prop, path):
         if crashed:
             print("  the relation still kills the process on this pair: %s" % crashed[0][1])
             check.violation(obj, what="still crashes")
-            return check.finish()
+            return 1 if check.violations else 0
         mism, _ = judge_c09(check, records)
         for m in mism:
             print("  still disagrees: %s" % json.dumps(m))
@@ -1183,7 +1171,7 @@ def replay(prop, path):
             check.violation(obj, what="%d mismatch(es) reproduced" % len(mism))
         else:
             print("  no disagreement on the current tree")
-        return check.finish()
+        return 1 if check.violations else 0
     if obj.get("kind") == "c08":
         vc = obj["case"]
         vc = {"g": vc["g"], "t": vc["t"], "v": vc["v"], "must": None, "may": None, "sc": None}
@@ -1211,5 +1199,5 @@ def replay(prop, path):
             check.violation(obj, what="%d mismatch(es) reproduced" % len(mism))
         else:
             print("  no disagreement on the current tree")
-        return check.finish()
+        return 1 if check.violations else 0
     raise common.ToolError("unknown replay file kind in " + path)
